@@ -338,6 +338,7 @@ def history_get_cases(draw, P):
            "cpu_count": draw(st.integers(1, 2)), "initializer": "none"}
     ops = []
     tok = 0
+    uses_gate = False
 
     def get_op():
         return ["get", {"max_workers": draw(st.integers(1, P["max_workers"])),
@@ -349,7 +350,7 @@ def history_get_cases(draw, P):
     ops.append(get_op())
     for _ in range(draw(st.integers(2, P.get("max_ops", 9)))):
         what = draw(st.sampled_from(["get", "get", "get", "submit", "submit", "crash", "shutdown", "shutdown_kill",
-                                     "idle", "wait"]))
+                                     "idle", "wait"] + (["cbget"] if P.get("cbget") and not uses_gate else [])))
         if what == "get":
             ops.append(get_op())
         elif what == "submit":
@@ -365,9 +366,19 @@ def history_get_cases(draw, P):
             ops.append(["shutdown", True, True])
         elif what == "idle":
             ops.append(["sleep", draw(st.sampled_from([0.3, 2.0, 12.0, 40.0]))])
+        elif what == "cbget":
+            # a long task whose done-callback calls the factory with changed arguments from the manager thread
+            ops.append(["submit", {"kind": "gate", "token": tok, "g": 0}])
+            ops.append(["callback", tok, "get_changed"])
+            ops.append(["wait_cb", tok])
+            uses_gate = True
+            tok += 1
         else:
             ops.append(["wait_all"])
     ops.append(get_op())
     ops.append(["submit", {"kind": "echo", "token": tok}])
     ops.append(["wait_all"])
-    return {"config": cfg, "program": [ops], "schedule": draw(schedules(P)), "faults": []}
+    program = [ops]
+    if uses_gate:
+        program.append([["sleep", draw(st.sampled_from([1e-3, 0.4, 3.0]))], ["open_gate", 0]])
+    return {"config": cfg, "program": program, "schedule": draw(schedules(P)), "faults": []}
